@@ -248,7 +248,7 @@ fn run_history(case: &Value, w: &mut World) -> V {
                 let u = usable[sel(g(1), usable.len())];
                 let h = w.handle(u).unwrap();
                 let (size, align, zeroed) = if kind == "alloc" {
-                    (g(2) as usize, 1usize << g(3).min(12), g(4) == 1)
+                    ((g(2) as usize).min(isize::MAX as usize + 1 - (1usize << g(3).min(18))), 1usize << g(3).min(18), g(4) == 1) // the largest size a Layout of this alignment can have
                 } else {
                     match g(2) % 3 {
                         0 => (8, 8, false),                        // alloc_uninit::<u64>()
@@ -257,7 +257,8 @@ fn run_history(case: &Value, w: &mut World) -> V {
                     }
                 };
                 let before = w.us[u].off;
-                let beg = align_up(before, align);
+                // the first address at or above the bump pointer with the requested alignment
+                let beg = align_up(w.us[u].base + before, align) - w.us[u].base;
                 let fits = beg.checked_add(size).is_some_and(|e| e <= w.us[u].cap);
                 let commit_before = fake_libc::with_vm(|vm| vm.committed_prefix(w.us[u].base)).unwrap_or(0);
                 let res: Result<(usize, usize), ()> = if kind == "alloc" {
@@ -363,7 +364,7 @@ fn run_history(case: &Value, w: &mut World) -> V {
                 let (exp_off, exp_end) = if is_tail {
                     (b.off, before + add)
                 } else {
-                    let beg = align_up(before, b.align);
+                    let beg = align_up(w.us[u].base + before, b.align) - w.us[u].base;
                     (beg, beg + b.len + add)
                 };
                 let fits = exp_end <= w.us[u].cap;
@@ -686,7 +687,7 @@ impl Engine for C11 {
             let c = r.below(100);
             let a = r.below(8);
             let op = if c < 38 {
-                json!(["alloc", a, gen_size(&mut r, maxcap), r.below(13).min(if r.chance(80) { 7 } else { 12 }), u64::from(r.chance(20)), r.next() & 0xff])
+                json!(["alloc", a, gen_size(&mut r, maxcap), if r.chance(4) { r.range(13, 18) } else { r.below(13).min(if r.chance(80) { 7 } else { 12 }) }, u64::from(r.chance(20)), r.next() & 0xff])
             } else if c < 43 {
                 json!(["uninit", a, r.below(3), r.below(6000)])
             } else if c < 58 {
@@ -726,7 +727,9 @@ impl Engine for C11 {
         if r.chance(5) {
             fail_reserve.push(r.range(1, narenas as u64));
         }
-        let mut case = json!({"caps": caps, "ops": ops, "fail_commit_at_ops": fail_ops, "fail_reserve_at": fail_reserve});
+        // the kernel may hand out any page-aligned address: offsets (in pages) from a 1 MiB boundary
+        let base_pages: Vec<u64> = (0..narenas).map(|_| r.pick(&[0u64, 0, 1, 2, 3, 7, 16, 17, 64, 255])).collect();
+        let mut case = json!({"caps": caps, "ops": ops, "fail_commit_at_ops": fail_ops, "fail_reserve_at": fail_reserve, "base_pages": base_pages});
         if let Some(k) = sweep_call {
             case["fail_commit_at_ops"] = json!([]);
             case["fail_reserve_at"] = json!([]);
@@ -742,9 +745,11 @@ impl Engine for C11 {
         // re-initialised (offsets back to 0) on every later one
         let first = GLOBALS.with(|g| g.borrow().is_none());
         if first {
-            fake_libc::install_vm(VmSim::default());
+            // the globals live at the bottom of the simulated kernel's window for the life of the process
+            fake_libc::install_vm(VmSim { controlled: true, ..VmSim::default() });
             arena::init(SCRATCH_CAP).expect("scratch init");
             let vm = fake_libc::take_vm().unwrap();
+            fake_libc::raise_window_floor(vm.cursor);
             let g: Vec<(usize, usize)> = vm.regions.iter().map(|r| (r.base, r.size)).collect();
             if g.len() != 2 {
                 return res.violation("harness", format!("init reserved {} regions", g.len()));
@@ -768,7 +773,15 @@ impl Engine for C11 {
                 released: false,
             })
             .collect();
-        fake_libc::install_vm(VmSim { fail_reserve_at: fail_reserve, regions: global_regions, ..VmSim::default() });
+        // where the kernel puts each reservation is part of the scenario: page offsets from a 1 MiB boundary
+        let base_pages: Vec<usize> = case["base_pages"].as_array().map(|a| a.iter().map(|x| x.as_u64().unwrap() as usize).collect()).unwrap_or_default();
+        fake_libc::install_vm(VmSim {
+            fail_reserve_at: fail_reserve,
+            regions: global_regions,
+            controlled: true,
+            base_page_offsets: base_pages,
+            ..VmSim::default()
+        });
 
         let mut w = World { us: vec![], objs: vec![], borrows: vec![], stats: Stats::default() };
         let mut verdict: V = Ok(());
